@@ -117,7 +117,11 @@ def run_tlc(module, cfg, workers='auto', env=None, timeout=1800, simulate=None, 
         rc = 124
     finally:
         shutil.rmtree(meta, ignore_errors=True)
-    return TLCResult(rc, out, time.time() - t0)
+    res = TLCResult(rc, out, time.time() - t0)
+    if str(workers) != '1':
+        # several workers print in a run-dependent order; make what the generators return reproducible
+        res.prints.sort(key=lambda p: (p[0], json.dumps(p[1], sort_keys=True, default=repr)))
+    return res
 
 
 def write_ndjson(path, records):
@@ -126,9 +130,42 @@ def write_ndjson(path, records):
             f.write(json.dumps(r, separators=(',', ':')) + '\n')
 
 
-def validate_trace(module, cfg, records, timeout=900, keep=None):
+def validate_trace(module, cfg, records, timeout=900, keep=None, chunk=40000):
     """Run a trace spec over NDJSON records (passed through env TRACE).
-    Returns (TLCResult, info) where info has 'matched' (events consumed), 'viol' (list)."""
+    Returns (TLCResult, info) where info has 'matched' (events consumed), 'viol' (list).
+    Long traces are cut at `reset` records into pieces of about `chunk` records, one TLC run each."""
+    pieces = []
+    cur = []
+    for r in records:
+        if r.get('ev') == 'reset' and len(cur) >= chunk:
+            pieces.append(cur)
+            cur = []
+        cur.append(r)
+    if cur or not pieces:
+        pieces.append(cur)
+    total = {'matched': 0, 'viol': [], 'total': len(records)}
+    last = None
+    for idx, piece in enumerate(pieces):
+        res, info = _validate_piece(module, cfg, piece, timeout, keep if idx == 0 else None)
+        if last is not None:
+            res.distinct += last.distinct
+            res.generated += last.generated
+            res.wall += last.wall
+            res.depth = max(res.depth, last.depth)
+        last = res
+        total['viol'] += info['viol']
+        if info['matched'] is None or total['matched'] is None:
+            total['matched'] = None
+        else:
+            total['matched'] += info['matched']
+        if 'unmatched' in info and 'unmatched' not in total:
+            total['unmatched'] = info['unmatched']
+        if info['matched'] != info['total']:
+            break
+    return last, total
+
+
+def _validate_piece(module, cfg, records, timeout, keep):
     os.makedirs(WORK, exist_ok=True)
     fd, path = tempfile.mkstemp(prefix='trace_', suffix='.ndjson', dir=WORK)
     os.close(fd)
